@@ -105,5 +105,10 @@ def matsumoto_fidelity(rho: np.ndarray, sigma: np.ndarray) -> float:
         # note if epsilon=1e-8 or smaller, it leads to test failures.
         sqinv_rho = scipy.linalg.inv(sq_rho)
 
-    sq_mfid = sq_rho @ scipy.linalg.sqrtm(sqinv_rho @ sigma @ sqinv_rho) @ sq_rho
+    # `sqinv_rho @ sigma @ sqinv_rho` is positive semidefinite and singular whenever `sigma` is: take its square root
+    # through the eigendecomposition (`scipy.linalg.sqrtm` can return NaN for singular matrices).
+    inner = sqinv_rho @ sigma @ sqinv_rho
+    eig_vals, eig_vecs = np.linalg.eigh((inner + inner.conj().T) / 2)
+    sq_inner = (eig_vecs * np.sqrt(np.clip(eig_vals, 0, None))) @ eig_vecs.conj().T
+    sq_mfid = sq_rho @ sq_inner @ sq_rho
     return np.real(np.trace(sq_mfid))
